@@ -1,7 +1,10 @@
 package main
 
 import (
+	"strings"
+
 	"github.com/cloudspannerecosystem/memefish/ast"
+	"github.com/cloudspannerecosystem/memefish/token"
 )
 
 // knownSite recognises, in a returned tree, the call sites of the genuine defects that were recorded rather than
@@ -35,4 +38,53 @@ func knownSite(src string, roots []ast.Node, prop string) string {
 		}
 	}
 	return ""
+}
+
+// neutralise removes from src the construct that triggers the recorded site defect (the join method word, the empty
+// "PRIMARY KEY ()", the back quotes around a scalar type name, the ALL of a change stream). A failure on src is attributed to
+// the recorded finding only if the same check PASSES on the neutralised text: a second, different defect that shows on a
+// sentence which also happens to contain a HASH JOIN is then still reported under its own key.
+func neutralise(site, src string) string {
+	toks, ok := tokenSpans(src)
+	if !ok {
+		return src
+	}
+	type cut struct {
+		from, to int
+		repl string
+	}
+	var cuts []cut
+	up := func(t token.Token) string { return strings.ToUpper(t.AsString) }
+	for i := 0; i+1 < len(toks); i++ {
+		t := toks[i]
+		switch site {
+		case "site:Join.Method":
+			if (t.Kind == token.TokenIdent || t.Kind == "HASH" || t.Kind == "LOOKUP") && toks[i+1].Kind == "JOIN" {
+				switch strings.ToUpper(t.Raw) {
+				case "HASH", "LOOKUP", "APPLY", "LOOP", "MERGE":
+					cuts = append(cuts, cut{int(t.Pos), int(t.End), ""})
+				}
+			}
+		case "site:CreateTable.emptyPrimaryKey":
+			if i+3 < len(toks) && strings.EqualFold(t.Raw, "PRIMARY") && strings.EqualFold(toks[i+1].Raw, "KEY") && toks[i+2].Kind == "(" && toks[i+3].Kind == ")" {
+				cuts = append(cuts, cut{int(t.Pos), int(toks[i+3].End), ""})
+			}
+		case "site:SimpleType.quotedName":
+			if t.Kind == token.TokenIdent && strings.HasPrefix(t.Raw, "`") {
+				switch up(t) {
+				case "BOOL", "INT64", "FLOAT32", "FLOAT64", "DATE", "TIMESTAMP", "NUMERIC", "STRING", "BYTES", "JSON", "TOKENLIST":
+					cuts = append(cuts, cut{int(t.Pos), int(t.End), t.AsString})
+				}
+			}
+		case "site:ChangeStreamForAll.All":
+			if t.Kind == "FOR" && toks[i+1].Kind == "ALL" {
+				cuts = append(cuts, cut{int(toks[i+1].Pos), int(toks[i+1].End), "t0"})
+			}
+		}
+	}
+	out := src
+	for i := len(cuts) - 1; i >= 0; i-- {
+		out = out[:cuts[i].from] + cuts[i].repl + out[cuts[i].to:]
+	}
+	return out
 }
